@@ -160,6 +160,48 @@ def stream_carry_rule(res, fx):
     res.extra['stream_carry_packet_mode_exempt'] = n_exempt
 
 
+def resume_offset_rule(res, fx, rule='RESUME-OFFSET', file_re=r'^(iogateway|dataio)/', floor=3):
+    """the dual of IORESULT: a transfer whose size is `total - cursor` (the part not yet transferred) starts at `base + cursor`"""
+    res.rule(rule, 'every DataIO read/write whose size argument is computed from a cursor (size = N - cursor, the untransferred rest) passes a buffer argument that is offset by the same cursor', floor=None)
+    n = 0
+    for f in sorted((f for f in fx.funcs.values() if f.full and re.search(file_re, f.file)), key=lambda f: (f.file, f.line)):
+        for c in f.walk():
+            if not c.is_call() or not IO_RE.search(c.get('q') or '') or len(c.args()) < 2:
+                continue
+            size = c.args()[1]
+            # cursor candidates: member lvalues under a subtraction in the size expression (directly or through one local)
+            def minus_terms(e, depth=0):
+                out = set()
+                for x in e.walk():
+                    if x['k'] == 'BinaryOperator' and x.get('op') == '-':
+                        out |= set(k for k in lvalues_in(x['ch'][1]) if k.startswith('this.'))
+                    if x['k'] == 'DeclRefExpr' and 'd' in x and depth < 1:
+                        for v in f.walk():
+                            if v['k'] == 'VarDecl' and v.get('d') == x['d'] and v['ch']:
+                                out |= minus_terms(v['ch'][0], depth + 1)
+                return out
+            cur = minus_terms(size)
+            if not cur:
+                continue
+            n += 1
+            def mentions(e, depth=0):
+                ks = set(lvalues_in(e))
+                if depth < 1:
+                    for x in e.walk():
+                        if x['k'] == 'DeclRefExpr' and 'd' in x:
+                            for v in f.walk():
+                                if v['k'] == 'VarDecl' and v.get('d') == x['d'] and v['ch']:
+                                    ks |= mentions(v['ch'][0], depth + 1)
+                return ks
+            ok = bool(cur & mentions(c.args()[0]))
+            res.ob(rule, f.where(c), '%s: transfer of the rest (size uses %s) starts at base + the same cursor' % (f.q.split('::')[-1], sorted(cur)[0]), ok, function=f.q,
+                   key='%s|%s|resume:%s' % (rule, f.q, sorted(cur)[0]),
+                   message='%s transfers `%s` bytes — the part not yet transferred according to %s — but starts at `%s`, which does not depend on that cursor: after a short transfer the resumed write '
+                           'repeats the beginning of the buffer instead of continuing, so the tail of the packet is replaced by a copy of its head' % (f.q, size.text(50), sorted(cur)[0], c.args()[0].text(40)))
+    if n < floor:
+        raise AnalysisBroken('%s: %d resume-style transfers found, expected at least %d' % (rule, n, floor))
+
+
 def recv_capacity_rule(res, fx, rule='RECV-CAPACITY'):
     """The stream receiver keeps its scratch buffer only if header + body fit into it: ByteBuffer::TruncateToLength(n) never grows a buffer, so a guard that forgets a term of n
     lets the gateway go on with a buffer that is too small and the frame is cut short."""
@@ -451,6 +493,7 @@ def run(res, tier):
         rets = [n for n in hs[0].walk() if n['k'] == 'ReturnStmt']
         v = rets[0]['ch'][0].get('v') if rets and rets[0]['ch'] else None
         res.ob('FRAME', hs[0].where(), 'MessageIOGateway::GetHeaderSize() == 8', v == 8, how=str(v), function=hs[0].q, key='FRAME|GetHeaderSize', message='GetHeaderSize() is %s, the frame is two 32-bit words' % v)
+    resume_offset_rule(res, fx)
     stream_carry_rule(res, fx)
     recv_capacity_rule(res, fx)
     codec_step_rule(res, fx)
